@@ -249,7 +249,7 @@ def _parse_zlist(text):
     return json.loads(t)
 
 
-def coq_eval_cases(pid, header, run_name, case_terms, expected, shard=300, tag=""):
+def coq_eval_cases(pid, header, run_name, case_terms, expected, shard=300, tag="", case_type=None):
     """Evaluate `run_name` on every case inside Coq and compare with `expected`.
 
     Returns (mismatch_indices, {index: model_obs}, coq_wall_s, errors).
@@ -263,7 +263,7 @@ def coq_eval_cases(pid, header, run_name, case_terms, expected, shard=300, tag="
         lines = [header, "From Verif Require Import Common.Corr.",
                  "From Coq Require Import ZArith List QArith. Import ListNotations.",
                  "Open Scope Z_scope.",
-                 "Definition cases := ["]
+                 ("Definition cases : list (%s * list (list Z)) := [" % case_type) if case_type else "Definition cases := ["]
         items = [f" ({case_terms[i]},\n   {czll(expected[i])})" for i in range(lo, hi)]
         lines.append(";\n".join(items))
         lines.append("].")
@@ -432,6 +432,8 @@ class Check:
         ensure_repo_on_path()
         pid = self.PID
         known = load_known()
+        for old in REPLAYS.glob(f"{pid}_*.json") if REPLAYS.exists() else []:
+            old.unlink()
         known_sigs = {k["signature"]: k for k in known.get("known", []) if k["property"] == pid}
 
         # 1. translate
@@ -623,7 +625,8 @@ class Check:
             terms.append(self.coq_case(c))
             expected.append(obs)
         if terms:
-            mism, outs, wall, errors = coq_eval_cases(self.PID, self.HEADER, self.RUN, terms, expected)
+            mism, outs, wall, errors = coq_eval_cases(self.PID, self.HEADER, self.RUN, terms, expected,
+                                                      case_type=getattr(self, "CASE_TYPE", None))
         else:
             mism, outs, wall, errors = [], {}, 0.0, []
         return mism, outs, wall, errors, {"distinct_nontrivial": distinct_nt, "dist": dist, "samples": samples}
@@ -664,7 +667,8 @@ def replay_file(check_cls, path):
     v = chk.monitor(case, obs, trace)
     print("case:", json.dumps(case, default=str))
     print("implementation observations:", obs)
-    mism, outs, _, errors = coq_eval_cases(chk.PID, chk.HEADER, chk.RUN, [chk.coq_case(case)], [obs], tag="_replay")
+    mism, outs, _, errors = coq_eval_cases(chk.PID, chk.HEADER, chk.RUN, [chk.coq_case(case)], [obs], tag="_replay",
+                                           case_type=getattr(chk, "CASE_TYPE", None))
     print("model agrees with implementation:", not mism and not errors)
     if mism:
         print("model observations:", outs.get(0))
